@@ -10,12 +10,19 @@ import (
 	"fmt"
 	"io"
 	"os"
+	"path/filepath"
 	"strconv"
 	"strings"
+	"syscall"
 	"testing"
 	"time"
 	"unicode"
+	"unsafe"
 
+	"github.com/mk6i/mkdb/engine"
+	"github.com/mk6i/mkdb/sql"
+	"github.com/mk6i/mkdb/storage"
+	"golang.org/x/term"
 	"verif/sim/core"
 )
 
@@ -35,6 +42,11 @@ type c20Case struct {
 	// wrong order and fixed with cursor-left, a junk word erased with ^W. The
 	// net text of every line is unchanged.
 	EditSeed uint64 `json:"edit_seed,omitempty"`
+	// PTY: the statements are real INSERTs (some into a table that does not
+	// exist); the keystrokes go to a pseudo terminal and the console's real
+	// read-execute loop (runTerminal in main.go) runs on its other end, with a
+	// real engine session behind it. What the table holds afterwards is compared.
+	PTY bool `json:"pty,omitempty"`
 }
 
 // typed renders token t as keystrokes, with corrections drawn from *x (xorshift state; 0 = none).
@@ -307,7 +319,256 @@ func runC20(c *c20Case) (got []string, reads int, err error, panicMsg string) {
 	return got, tty.reads, fmt.Errorf("ReadLine loop did not end"), ""
 }
 
+// ---- the console's own loop over a pseudo terminal ----
+
+func openPTY() (master, slave *os.File, err error) {
+	master, err = os.OpenFile("/dev/ptmx", os.O_RDWR|syscall.O_NOCTTY, 0)
+	if err != nil {
+		return nil, nil, err
+	}
+	unlock := int32(0)
+	if _, _, e := syscall.Syscall(syscall.SYS_IOCTL, master.Fd(), syscall.TIOCSPTLCK, uintptr(unsafe.Pointer(&unlock))); e != 0 {
+		master.Close()
+		return nil, nil, e
+	}
+	var n uint32
+	if _, _, e := syscall.Syscall(syscall.SYS_IOCTL, master.Fd(), syscall.TIOCGPTN, uintptr(unsafe.Pointer(&n))); e != 0 {
+		master.Close()
+		return nil, nil, e
+	}
+	slave, err = os.OpenFile(fmt.Sprintf("/dev/pts/%d", n), os.O_RDWR|syscall.O_NOCTTY, 0)
+	if err != nil {
+		master.Close()
+		return nil, nil, err
+	}
+	return master, slave, nil
+}
+
+// ptyExpected: the rows the table must hold: one per INSERT INTO t, in order.
+func (c *c20Case) ptyExpected() [][2]string {
+	var out [][2]string
+	for _, toks := range c.Stmts {
+		if len(toks) == 9 && toks[2] == "t" {
+			lit := toks[7]
+			out = append(out, [2]string{toks[5], lit[1 : len(lit)-1]})
+		}
+	}
+	return out
+}
+
+var ptyScratchN int
+
+func checkC20PTY(c *c20Case) (v *core.DriverViolation, harness string) {
+	mk := func(kind, detail string) *core.DriverViolation {
+		b, _ := json.Marshal(c)
+		return &core.DriverViolation{Prop: "C20", Oracle: "O-stream", Features: map[string]string{"how": kind}, Detail: detail, Seed: c.Seed, Case: b}
+	}
+	base := os.Getenv("SIM_SCRATCH")
+	if base == "" {
+		base = os.TempDir()
+	}
+	ptyScratchN++
+	dir := filepath.Join(base, fmt.Sprintf("c20pty-%d-%d", os.Getpid(), ptyScratchN))
+	if err := os.MkdirAll(dir, 0755); err != nil {
+		return nil, err.Error()
+	}
+	defer os.RemoveAll(dir)
+	cwd, _ := os.Getwd()
+	if err := os.Chdir(dir); err != nil {
+		return nil, err.Error()
+	}
+	defer os.Chdir(cwd)
+	if err := storage.InitStorage(); err != nil {
+		return nil, "InitStorage: " + err.Error()
+	}
+	sess := &engine.Session{}
+	for _, q := range []string{"CREATE DATABASE d", "USE d", "CREATE TABLE t (k INT, s VARCHAR(250))"} {
+		if err := sess.ExecQuery(q); err != nil {
+			return nil, q + ": " + err.Error()
+		}
+	}
+	defer sess.Close()
+	master, slave, err := openPTY()
+	if err != nil {
+		return nil, "no pseudo terminal: " + err.Error()
+	}
+	defer master.Close()
+	defer slave.Close()
+	if _, err := term.MakeRaw(int(slave.Fd())); err != nil {
+		return nil, "raw mode: " + err.Error()
+	}
+	savedIn, err := syscall.Dup(0)
+	if err != nil {
+		return nil, err.Error()
+	}
+	if err := syscall.Dup2(int(slave.Fd()), 0); err != nil {
+		return nil, err.Error()
+	}
+	defer func() {
+		syscall.Dup2(savedIn, 0)
+		syscall.Close(savedIn)
+	}()
+	data, _ := c.stream()
+	data = append(data, 4) // ^D on the empty line after the last Enter: leave the console
+	go func() {
+		for len(data) > 0 {
+			n, err := master.Write(data)
+			if err != nil {
+				return
+			}
+			data = data[n:]
+		}
+	}()
+	type outcome struct {
+		err   error
+		panic string
+	}
+	done := make(chan outcome, 1)
+	go func() {
+		var o outcome
+		defer func() {
+			if r := recover(); r != nil {
+				o.panic = fmt.Sprint(r)
+			}
+			done <- o
+		}()
+		o.err = runTerminal(sess)
+	}()
+	var o outcome
+	select {
+	case o = <-done:
+	case <-time.After(30 * time.Second):
+		return mk("pty-hang", "the console's loop did not return within 30 s after ^D"), ""
+	}
+	if o.panic != "" {
+		return mk("pty-panic", "the console's loop panicked: "+o.panic), ""
+	}
+	if o.err != nil {
+		return mk("pty-error", "the console's loop returned "+o.err.Error()), ""
+	}
+	ts := sql.NewTokenScanner(strings.NewReader("SELECT * FROM t"))
+	tl := sql.TokenList{}
+	for ts.Next() {
+		tl.Add(ts.Cur())
+	}
+	p := sql.Parser{TokenList: tl}
+	stmt, err := p.Parse()
+	if err != nil {
+		return nil, err.Error()
+	}
+	rows, _, err := engine.EvaluateSelect(stmt.(sql.Select), sess.RelationService)
+	if err != nil {
+		return mk("pty-select", "SELECT * FROM t after the session: "+err.Error()), ""
+	}
+	want := c.ptyExpected()
+	for i := 0; i < len(want) || i < len(rows); i++ {
+		switch {
+		case i >= len(rows):
+			return mk("pty-statement-lost", fmt.Sprintf("INSERT number %d (k = %s) was typed and is valid, but its row is not in the table (%d of %d rows)", i, want[i][0], len(rows), len(want))), ""
+		case i >= len(want):
+			return mk("pty-statement-extra", fmt.Sprintf("the table holds %d rows, %d INSERTs were typed: extra row %v", len(rows), len(want), rows[i].Vals)), ""
+		default:
+			k, _ := rows[i].Vals[0].(int64)
+			sv, _ := rows[i].Vals[1].(string)
+			if strconv.FormatInt(k, 10) != want[i][0] || sv != want[i][1] {
+				return mk("pty-statement-altered", fmt.Sprintf("row %d: typed (%s, %q), stored (%d, %q)", i, want[i][0], want[i][1], k, sv)), ""
+			}
+		}
+	}
+	return nil, ""
+}
+
+// genC20PTY: a short console session of real statements for checkC20PTY.
+func genC20PTY(seed uint64) *c20Case {
+	r := core.NewRng(seed ^ 0x9791)
+	c := &c20Case{Seed: seed, EOFAt: -1, PTY: true, Mode: "typed"}
+	n := r.Range(2, 14)
+	multi := r.Chance(0.7)
+	for i := 0; i < n; i++ {
+		q := "'" // (the engine takes double-quoted text for an identifier: literals are single-quoted)
+		var sb strings.Builder
+		for m := r.Range(0, 14); m > 0; m-- {
+			switch r.Intn(7) {
+			case 0:
+				sb.WriteString(";")
+			case 1:
+				sb.WriteString(" ")
+			case 2:
+				sb.WriteString([]string{"é", "漢", "ü", "😀"}[r.Intn(4)])
+			case 3:
+				if q == "'" {
+					sb.WriteString("\"")
+				} else {
+					sb.WriteString("'")
+				}
+			default:
+				sb.WriteByte("abcdefghijklmnopqrstuvwxyz0123456789,.()=<>"[r.Intn(43)])
+			}
+		}
+		table := "t"
+		if r.Chance(0.3) {
+			table = "nosuch" // refused by the engine: the statements after it must still arrive
+		}
+		toks := []string{"INSERT", "INTO", table, "VALUES", "(", strconv.Itoa(1000 + i), ",", q + sb.String() + q, ")"}
+		var seps []string
+		for j := range toks {
+			switch {
+			case j == len(toks)-1:
+				seps = append(seps, []string{"", " "}[r.Intn(2)])
+			case r.Chance(0.12):
+				seps = append(seps, "\r") // the statement goes on on the next line
+			default:
+				seps = append(seps, " ")
+			}
+		}
+		c.Stmts = append(c.Stmts, toks)
+		c.Sep = append(c.Sep, seps)
+		switch {
+		case i == n-1:
+			c.After = append(c.After, "\r")
+		case multi && r.Chance(0.5):
+			c.After = append(c.After, " ") // the next statement on the same line
+		default:
+			c.After = append(c.After, "\r")
+		}
+	}
+	if r.Chance(0.4) {
+		c.EditSeed = r.U64() | 1
+	}
+	return c
+}
+
+// wedged: a case made the console spin or block for good. The goroutine that
+// runs it cannot be stopped, so the shard reports what it has and exits.
+var wedged bool
+
+// checkC20 runs one case under a watchdog: a console that does not come back
+// within 20 s of wall clock (the longest ordinary case takes milliseconds)
+// hangs - the statements typed after that point never reach the engine.
 func checkC20(c *c20Case) *core.DriverViolation {
+	if wedged {
+		return nil
+	}
+	done := make(chan *core.DriverViolation, 1)
+	go func() { done <- checkC20Raw(c) }()
+	select {
+	case v := <-done:
+		return v
+	case <-time.After(20 * time.Second):
+		wedged = true
+		b, _ := json.Marshal(c)
+		return &core.DriverViolation{Prop: "C20", Oracle: "O-live", Features: map[string]string{"how": "hang"}, Detail: "the console did not come back within 20 s of wall clock on this input: it spins or blocks, later statements never reach the engine", Seed: c.Seed, Case: b}
+	}
+}
+
+func checkC20Raw(c *c20Case) *core.DriverViolation {
+	if c.PTY {
+		v, h := checkC20PTY(c)
+		if h != "" {
+			ptyHarness = h
+		}
+		return v
+	}
 	want := c.expected()
 	got, _, err, pmsg := runC20(c)
 	mk := func(kind, detail string) *core.DriverViolation {
@@ -339,7 +600,13 @@ func checkC20(c *c20Case) *core.DriverViolation {
 
 // ---- generator ----
 
+// ptyHarness: set when a pseudo-terminal case could not be set up (harness trouble, not a verdict)
+var ptyHarness string
+
 func genC20(seed uint64, thorough bool) *c20Case {
+	if core.NewRng(seed ^ 0x97).Chance(0.003) {
+		return genC20PTY(seed)
+	}
 	r := core.NewRng(seed ^ 0xc20)
 	c := &c20Case{Seed: seed, EOFAt: -1}
 	n := r.Range(1, 6)
@@ -496,7 +763,13 @@ func genC20(seed uint64, thorough bool) *c20Case {
 }
 
 func shrinkC20(c *c20Case, sig string) *c20Case {
+	// minimisation is bounded: a case of a hundred statements has thousands of
+	// tokens to try; what is left after 25 s is reported as it is
+	deadline := time.Now().Add(25 * time.Second)
 	fails := func(x *c20Case) bool {
+		if time.Now().After(deadline) {
+			return false
+		}
 		v := checkC20(x)
 		return v != nil && v.Features["how"] == sig
 	}
@@ -521,6 +794,9 @@ func shrinkC20(c *c20Case, sig string) *c20Case {
 			}
 		}
 		for i := range best.Stmts {
+			if best.PTY {
+				break // the statements of a pseudo-terminal case are real SQL: only whole statements are dropped
+			}
 			for j := len(best.Stmts[i]) - 1; j >= 0 && len(best.Stmts[i]) > 1; j-- {
 				y := clone(best)
 				y.Stmts[i] = append(y.Stmts[i][:j], y.Stmts[i][j+1:]...)
@@ -578,6 +854,11 @@ func TestVerifC20(t *testing.T) {
 		res.Evals = 1
 		if v := checkC20(&c); v != nil {
 			res.Violations = append(res.Violations, v)
+		}
+		res.Harness = ptyHarness
+		if wedged {
+			res.Print()
+			os.Exit(0)
 		}
 		return
 	}
@@ -652,14 +933,34 @@ func TestVerifC20(t *testing.T) {
 		if len(res.Samples) < 2 && semis {
 			res.Samples = append(res.Samples, map[string]interface{}{"seed": seed, "mode": c.Mode, "stream": string(data), "chunks": c.Chunks, "eof_at": c.EOFAt, "expected": want})
 		}
-		if v := checkC20(c); v != nil {
+		if c.PTY {
+			res.Stats["probe_console_loop_over_pty"]++
+		}
+		v := checkC20(c)
+		if ptyHarness != "" {
+			res.Harness = fmt.Sprintf("seed %d: %s", seed, ptyHarness)
+			return
+		}
+		if v != nil {
 			if seen[v.Features["how"]] {
 				continue
 			}
 			seen[v.Features["how"]] = true
-			m := shrinkC20(c, v.Features["how"])
-			v = checkC20(m)
+			if !wedged {
+				m := shrinkC20(c, v.Features["how"])
+				if v2 := checkC20(m); v2 != nil && v2.Features["how"] == v.Features["how"] {
+					v = v2
+				}
+			}
 			res.Violations = append(res.Violations, v)
+		}
+		if wedged {
+			// a goroutine is stuck in the console code: report and leave at once
+			for f := range fps {
+				res.Fingerprints = append(res.Fingerprints, f)
+			}
+			res.Print()
+			os.Exit(0)
 		}
 	}
 	for f := range fps {
